@@ -410,6 +410,57 @@ func ruleC12Whole(c *Checker) {
 	for i, r := range successReturns(U) {
 		c.check(guarded(r.Block(), eofT), R, name, fmt.Sprintf("success return %d after EOF", i), p.Pos(r.Pos()), "only past the exact io.EOF edge", "Unpack can return success without having seen io.EOF from the tar reader (a truncated archive would be accepted)")
 	}
+	// ... and has read the compressed stream to its end: archive/tar stops at the end-of-archive
+	// marker, so the gzip trailer (checksum and length of the decompressed data) is only compared
+	// when the decompressor itself is read to EOF. Every success return must be past the ok edge of
+	// a call that drains the gzip reader (io.Copy / io.ReadAll / io.CopyN-less forms) after the loop.
+	var gz ssa.Value
+	for _, ci := range callsTo(U, func(o *types.Func) bool { return isFunc(o, "compress/gzip", "NewReader") }) {
+		gz = extractOf(ci.(*ssa.Call), 0)
+	}
+	if gz == nil {
+		c.anchorMissing(R, "the gzip reader created in Unpack")
+	} else {
+		var drainOK []Edge
+		for _, v := range u.VCalls {
+			o := calleeObj(v.Inner)
+			if !(isFunc(o, "io", "Copy") || isFunc(o, "io", "ReadAll") || isFunc(o, "io", "CopyBuffer")) {
+				continue
+			}
+			srcIdx := 1
+			if isFunc(o, "io", "ReadAll") {
+				srcIdx = 0
+			}
+			if srcIdx >= len(v.Args) {
+				continue
+			}
+			fromGz := false
+			for w := range p.backSlice(v.Args[srcIdx], 0) {
+				if w == gz {
+					fromGz = true
+				}
+				// not through the tar reader (that stops at the end-of-archive marker)
+			}
+			viaTar := false
+			for w := range p.backSlice(v.Args[srcIdx], 0) {
+				if cl, ok := w.(*ssa.Call); ok && isFunc(calleeObj(cl), "archive/tar", "NewReader") {
+					viaTar = true
+				}
+			}
+			if !fromGz || viaTar {
+				continue
+			}
+			site, ok := v.Site.(*ssa.Call)
+			if !ok || !guarded(site.Block(), eofT) {
+				continue
+			}
+			okE, _ := okEdgesOfCall(site)
+			drainOK = append(drainOK, okE...)
+		}
+		for i, r := range successReturns(U) {
+			c.check(len(drainOK) > 0 && guarded(r.Block(), drainOK), R, name, fmt.Sprintf("success return %d after the gzip stream was drained", i), p.Pos(r.Pos()), "past the ok edge of a read of the decompressor to its end", "Unpack can return success without having read the gzip stream to its end: the checksum in the gzip trailer is never compared, so a slug with flipped bits in a body, a damaged header block or a missing trailer unpacks 'successfully'")
+		}
+	}
 	// no other condition shares the EOF exit: the EOF edge's source block must test exactly one comparison (no || lowered into a preceding block that also jumps there)
 	for _, e := range eofT {
 		tgt := e.To()
